@@ -108,6 +108,11 @@ FineMonotone ==
        /\ (Geo = "bicone" => FxAdd(HeightCdf(Geo, x), HeightCdf(Geo, FxSub(FxOne, x))) = FxOne)   \* symmetric
        /\ SatCdf(x) = FxRat(c[1] * c[1], Fine * Fine)
 
+(* the literals and the fast product of Random.tla *)
+ASSUME FxHalfC = FxRat(1, 2) /\ Tiny = FxEps(96)
+ASSUME LET S == {FxRat(1, 3), FxRat(-7, 5), FxOne, FxZero, FxRat(3, 1024), FxDec(1, 0, <<1234, 5678, 9012, 3456>>), FxInt(360), FxEps(40)}
+       IN \A x, y \in S : FxMulZ(x, y) = FxMul(x, y) /\ FxSqrZ(x) = FxSqr(x) /\ FxCubeZ(x) = FxCube(x)
+
 ASSUME \A geo \in {"cone", "bicone"} : HeightCdf(geo, FxZero) = FxZero /\ HeightCdf(geo, FxOne) = FxOne
 ASSUME HeightCdf("bicone", FxHalfC) = FxHalfC /\ HeightCdf("cone", FxHalfC) = FxRat(1, 8)
 ASSUME HeightCdf("bicone", FxRat(1, 4)) = FxRat(1, 16) /\ HeightCdf("bicone", FxRat(3, 4)) = FxRat(15, 16)
@@ -148,7 +153,7 @@ P3(t) == Verdict("standard", NodeOf, t, 0, <<>>, <<>>, {CoordV, ExactV}, Out) = 
 P4(t) == ~(sh = "hwb" /\ c[1] = 0) =>
            Std(t, <<ExactV[1], ExactV[2], GridDy((c[3] + 1) % N, LN)>>, Out) = "hue-not-uniform-on-arc"
 (* a height off by 2^-(Prec-10) relative: 3 * 1024 u on the CDF against a tolerance of 64 u *)
-P5(t) == (sh = "cone" /\ c[1] >= 1) =>
+P5(t) == (sh = "cone" /\ c[1] >= 1 /\ c[1] < N) =>
            Std(t, ExactV, Colour(FxAdd(PH, FxShr(PH, Prec(t) - 10)), PS, c[3])) = "not-volume-uniform"
 (* bounds: a standard sample outside the documented range *)
 P6(t) == /\ (sh # "hwb" => Std(t, ExactV, <<Out[1], Out[2], DyAdd(Out[3], DyPow2(-10))>>)
